@@ -27,7 +27,12 @@ func init() {
 	// proj: items "lon:lat:alt:ox:oy" (ox:oy = oracle answer or E:E), EPSG code
 	op("proj", func(a []string) string {
 		var pts []*object.Point
-		for _, it := range split(a[0]) {
+		items := split(a[0])
+		for k, it := range items {
+			if k > 0 && it == items[k-1] { // the same point OBJECT twice in a row (a caller appending one pointer twice)
+				pts = append(pts, pts[k-1])
+				continue
+			}
 			f := strings.Split(it, ":")
 			p, err := argPoint(atof(f[0]), atof(f[1]), atof(f[2]))
 			if err != nil {
@@ -47,7 +52,12 @@ func init() {
 	})
 	op("unproj", func(a []string) string {
 		var pts []*object.ProjectedPoint
-		for _, it := range split(a[0]) {
+		uitems := split(a[0])
+		for k, it := range uitems {
+			if k > 0 && it == uitems[k-1] {
+				pts = append(pts, pts[k-1])
+				continue
+			}
 			f := strings.Split(it, ":")
 			pts = append(pts, &object.ProjectedPoint{X: atof(f[0]), Y: atof(f[1]), Alt: atof(f[2])})
 		}
@@ -148,6 +158,9 @@ func init() {
 						o = fbits(x) + ":" + fbits(y)
 					}
 					items = append(items, fbits(p.Lon())+":"+fbits(p.Lat())+":"+fbits(p.Alt())+":"+o)
+					if rng.Intn(8) == 0 { // the same point object again, next to itself
+						items = append(items, items[len(items)-1])
+					}
 				}
 				do("proj", join(items), fmt.Sprint(crs))
 			default: // inverse, from projected coordinates near a forward image
@@ -173,6 +186,9 @@ func init() {
 						o = fbits(lo) + ":" + fbits(la)
 					}
 					items = append(items, fbits(x)+":"+fbits(y)+":"+fbits(alt)+":"+o)
+					if rng.Intn(8) == 0 {
+						items = append(items, items[len(items)-1])
+					}
 				}
 				do("unproj", join(items), fmt.Sprint(crs))
 			}
